@@ -243,7 +243,57 @@ def broken_before_call():
             texts.append(str(e).replace(__file__, "<file>"))
     except BaseException as e:  # noqa: B902
         texts.append(type(e).__name__)
+    # the same contract written with keyword arguments only, the condition not first
+    try:
+        @icontract.require(description="must be positive", condition=lambda x: x > 0, enabled=True)
+        def h(x):
+            return x
+
+        try:
+            h(-1)
+            texts.append("returned")
+        except icontract.ViolationError as e:
+            texts.append(str(e).replace(__file__, "<file>"))
+    except BaseException as e:  # noqa: B902
+        texts.append(type(e).__name__)
     out["message_text"] = texts
+    # a snapshot (with its explicitly enabled postcondition) that reaches a class over two bases
+    ran = []
+    try:
+        class A(icontract.DBC):
+            @icontract.snapshot(lambda self: len(self.items), name="n", enabled=True)
+            @icontract.ensure(lambda self, OLD: len(self.items) == OLD.n + 1, enabled=True)
+            def push(self):
+                self.items.append(1)
+
+        class B(A):
+            pass
+
+        class C(A):
+            pass
+
+        try:
+            class D(B, C):
+                def __init__(self):
+                    self.items = []
+
+                def push(self):
+                    ran.append("push")
+                    if len(self.items) < 1:
+                        self.items.append(1)
+
+            o = D()
+            o.push()
+            try:
+                o.push()
+                res = "second push returned"
+            except icontract.ViolationError:
+                res = "violation"
+        except ValueError:
+            res = "class refused with ValueError"
+    except BaseException as e:  # noqa: B902
+        res = type(e).__name__
+    out["diamond_snapshot"] = [res, []]
     return out
 
 
